@@ -3,6 +3,8 @@ package dicescript
 import (
 	"errors"
 	"strconv"
+	"strings"
+	"unicode"
 )
 
 type ParserData struct {
@@ -338,6 +340,8 @@ func fixCodeByOffset(code []ByteCode, offset int) {
 }
 
 func (p *ParserData) AddStoreComputed(name string, text string) {
+	// 表达式文本不含其后被吞掉的空白/换行(否则 "&a = e\n理由" 存下的是 "e\n")
+	text = strings.TrimRightFunc(text, unicode.IsSpace)
 	code, length, offset := p.CodePop()
 	fixCodeByOffset(code, offset)
 	val := NewComputedValRaw(&ComputedData{
@@ -351,6 +355,7 @@ func (p *ParserData) AddStoreComputed(name string, text string) {
 }
 
 func (p *ParserData) AddStoreComputedOnStack(text string) {
+	text = strings.TrimRightFunc(text, unicode.IsSpace)
 	code, length, offset := p.CodePop()
 	fixCodeByOffset(code, offset)
 	val := NewComputedValRaw(&ComputedData{
